@@ -756,6 +756,8 @@ func replay(c *core.Ctx) {
 		k.bytesCase(cs.Hdr, cs.Recs, cs.Big)
 	case "ladder":
 		k.ladderCase(cs.Hdr, cs.N, cs.Big)
+	case "after-failed-write":
+		k.afterFailedWrite()
 	case "save-over":
 		k.saveOver(cs.Recs)
 	case "value-bytes":
